@@ -252,7 +252,7 @@ fn update_best_com(
     resolution: f64,
     directed: bool,
 ) {
-    for (nbr_com, wt) in weights2com {
+    for (nbr_com, wt) in weights2com.into_iter().sorted_by_key(|(com, _)| *com) {
         let gain = match directed {
             true => {
                 wt - resolution
